@@ -213,6 +213,38 @@ def h_pairs(ctx: Any, idx: int, twin: bool = False) -> None:
             ctx.check(r1 != rs, f'C19.pretty.same-text-for-different-arguments[{nt.label}|{tag}|against-the-direct-application-with-arguments-exchanged]', lambda: f'{label}: the instance {first!r} and the direct application {sw!r} both print as {r1!r}')
 
 
+def h_nest(ctx: Any, idx: int, twin: bool = False) -> None:
+    """an application of the notation inside another application of the same notation, on the left or on the right:
+    (a . b) . c and a . (b . c) are different patterns with differently printed arguments"""
+    from proof_generation import pattern as P
+
+    label, nt = live_notations()[idx]
+    deps = sorted(nt.definition.metavars())
+    pairs = [(i, j) for i in deps for j in deps if i < j]
+    ctx.assume(len(pairs) > 0)
+    i, j = pairs[ctx.choose(len(pairs), 'positions')]
+    atoms = _atoms()
+    a, b, c = (atoms[ctx.choose(len(atoms), 'atom')] for _ in range(3))
+    registered = ctx.choose(2, 'printer') == 0
+    opts = P.PrettyOptions(notations={n.definition: n for _, n in live_notations()} if registered else {})
+    base = [atoms[(3 + k) % len(atoms)] for k in range(nt.arity)]
+    in1 = list(base)
+    in1[i], in1[j] = a, b
+    x = list(base)
+    x[i], x[j] = nt(*in1), c
+    in2 = list(base)
+    in2[i], in2[j] = b, c
+    y = list(base)
+    y[i], y[j] = a, nt(*in2)
+    ctx.assume(x[i].pretty(opts) != y[i].pretty(opts) or x[j].pretty(opts) != y[j].pretty(opts))
+    rx, ry = nt(*x).pretty(opts), nt(*y).pretty(opts)
+    ctx.count('reached')
+    ctx.sample({'notation': label, 'left-nested': rx, 'right-nested': ry})
+    if twin:
+        ctx.violation('TWIN')
+    ctx.check(rx != ry, f'C19.pretty.same-text-for-different-nesting[{nt.label}|{"registered" if registered else "unregistered"}]', lambda: f'{label}: {x!r} and {y!r} both print as {rx!r}')
+
+
 # -- pretty steps vs binary instructions ----------------------------------------------------------
 
 STEP_NAMES = ('EVar', 'SVar', 'Symbol', 'MetaVar', 'Implies', 'App', 'Exists', 'Mu', 'ESubst', 'SSubst', 'Prop1', 'Prop2', 'Prop3', 'ModusPonens', 'Quantifier', 'Generalization', 'Instantiate', 'Pop', 'Save', 'Load', 'Publish')
@@ -432,6 +464,10 @@ def levels(tier: str) -> list[dict]:
         if not live_notations()[i][1].definition.metavars():
             continue
         L.append(dict(label=f'pairs/{live_notations()[i][0]}', module=M, fn='h_pairs', kwargs=dict(idx=i), budget_s=bud, required=True, twin=(i == 1), small=True))
+    for i in range(n):
+        nt_ = live_notations()[i][1]
+        if nt_.arity >= 2 and len(nt_.definition.metavars()) >= 2:
+            L.append(dict(label=f'nesting/{live_notations()[i][0]}', module=M, fn='h_nest', kwargs=dict(idx=i), budget_s=bud, required=True, twin=False, small=True))
     plan = [('patterns', 'gamma', 2), ('proofs', 'proof', 2), ('all', 'gamma', 2), ('patterns', 'claim', 2), ('small', 'proof', 3)]
     if not q:
         plan += [('patterns', 'gamma', 3), ('proofs', 'proof', 3), ('all', 'claim', 3), ('small', 'proof', 4), ('patterns', 'gamma', 4), ('proofs', 'proof', 4)]
